@@ -221,11 +221,29 @@ def run_ext(case):
     from infretis.classes.path import Path
     from infretis.classes.system import System
     ctl.install()
+    work = _newdir()
+    try:
+        if case.get("prelude"):
+            pre = _run_ext_in(case["prelude"], work)
+            if "harness_error" in pre:
+                return pre
+        obs = _run_ext_in(case, work)
+        if case.get("prelude"):
+            obs["prelude_obs"] = {k: pre.get(k) for k in ("raised", "success", "status", "path", "proc")}
+        return obs
+    finally:
+        shutil.rmtree(work, ignore_errors=True)
+
+
+def _run_ext_in(case, work):
+    import importlib.util  # noqa: F401
+    from fake_md import ctl
+    from infretis.classes.path import Path
+    from infretis.classes.system import System
     eng_name = case["engine"]
     frames = case["frames"]
     sub = case.get("sub", 1)
     lo = case.get("lo", 0.0)
-    work = _newdir()
     obs = {"raised": "ok"}
     try:
         if eng_name == "lammps":
@@ -332,6 +350,7 @@ def run_ext(case):
             r = [f for f in cand if f.startswith("r_")]
             want_rev = bool(case["rev"]) != bool(case.get("vel_rev0", False))
             pick = r if want_rev else [f for f in cand if not f.startswith("r_")]
+            pick.sort(key=lambda f: os.path.getmtime(os.path.join(work, f)), reverse=True)   # newest: this propagation's
             startfile = os.path.join(work, pick[0]) if pick else None
         if startfile and os.path.exists(startfile):
             try:
@@ -345,8 +364,6 @@ def run_ext(case):
         obs["harness_error"] = str(e)
     except Exception:  # noqa: BLE001
         obs["harness_error"] = traceback.format_exc()[-1500:]
-    finally:
-        shutil.rmtree(work, ignore_errors=True)
     return obs
 
 
@@ -528,6 +545,173 @@ def run_inproc(case):
     finally:
         shutil.rmtree(work, ignore_errors=True)
     return obs
+
+
+# ----------------------------------------------------------------------------- sequences on one engine object
+def _new_inproc_engine(name, sub, L, k):
+    """a FRESH engine object with forces that depend on the configuration (ASE: spring k; TurtleMD: Lennard-Jones)"""
+    import importlib.util  # noqa: F401
+    import contextlib
+    import io
+    import numpy as np
+    if name == "ase":
+        from infretis.classes.engines.ase_engine import ASEEngine
+        root = _workroot()
+        mod = os.path.join(root, "spring_calc.py")
+        if not os.path.exists(mod):
+            with open(mod, "w") as fh:
+                fh.write(ASE_CALC)
+        eng = ASEEngine(_ase_dt(), 300, sub, root, "velocityverlet",
+                        {"module": mod, "class": "Spring", "k": k, "x0": 2.0}, exe_path=root)
+    else:
+        from infretis.classes.engines.turtlemdengine import TurtleMDEngine
+        from turtlemd.integrators import VelocityVerlet
+
+        class SeedlessVV(VelocityVerlet):
+            def __init__(self, timestep, seed=None):
+                super().__init__(timestep)
+
+        with contextlib.redirect_stdout(io.StringIO()):
+            eng = TurtleMDEngine(
+                timestep=0.015625, subcycles=sub, temperature=300, boltzmann=1.0,
+                integrator={"class": "LangevinInertia", "settings": {"gamma": 1.0, "beta": 1.0}},
+                potential={"class": "LennardJones",
+                           "settings": {"parameters": {"1": {"sigma": 1.0, "epsilon": k, "rcut": 3.0}}}},
+                particles={"mass": [1.0, 1.0], "name": ["H", "H"], "pos": [[0, 0, 0], [1.0, 0, 0]]},
+                box={"periodic": [True, True, True], "low": [0, 0, 0], "high": [L, L, L]})
+        eng.integrator = SeedlessVV
+        eng.integrator_settings = {}
+        eng.rgen = np.random.default_rng(0)
+    eng.order_function = _probe_order()
+    return eng
+
+
+def run_seq(case):
+    """case: engine 'ase-seq'|'turtle-seq', sub, L, k, steps=[{d0, v0, rev, maxlen, from: None | [step, frame]}].
+    Every step is run (a) on ONE long-lived engine object, in order, and (b) on a FRESH engine object; a step with
+    `from` starts at a frame of an earlier path of the long-lived engine (e.g. backward from a middle frame)."""
+    import importlib.util  # noqa: F401
+    from infretis.classes.path import Path
+    from infretis.classes.system import System
+    name = "ase" if case["engine"].startswith("ase") else "turtle"
+    work = _newdir()
+    obs = {"raised": "ok", "steps": []}
+    try:
+        L = case["L"]
+
+        def start_file(d0, v0, tag):
+            if name == "turtle":
+                fn = os.path.join(work, f"start_{tag}.xyz")
+                with open(fn, "w") as fh:
+                    fh.write(f"2\n# Box: {L:9.4f} {L:9.4f} {L:9.4f}\nH 0.0 0.0 0.0 0.0 0.0 0.0\n"
+                             f"H {d0!r} 0.0 0.0 {v0!r} 0.0 0.0\n")
+                return fn
+            import ase
+            import numpy as np
+            at = ase.atoms.Atoms("H2", cell=[L, L, L], pbc=True)
+            at.set_masses([1.0, 1.0])
+            pos = np.zeros((2, 3))
+            pos[1, 0] = d0
+            at.set_positions(pos)
+            vel = np.zeros((2, 3))
+            vel[1, 0] = v0
+            at.set_velocities(vel)
+            fn = os.path.join(work, f"start_{tag}.traj")
+            at.write(fn)
+            return fn
+
+        def prop(eng, exe, cfg, vel_rev0, rev, maxlen):
+            os.makedirs(exe, exist_ok=True)
+            eng.exe_dir = exe
+            system = System()
+            system.config = cfg
+            system.vel_rev = vel_rev0
+            path = Path(maxlen=maxlen)
+            ens = {"interfaces": (-1e9, 0.0, 1e9), "ens_name": "001"}
+            eng.propagate(path, ens, system, reverse=rev)
+            return {"order": [[float(x) for x in pp.order] for pp in path.phasepoints],
+                    "ekin": [None if pp.ekin is None else float(pp.ekin) for pp in path.phasepoints],
+                    "vpot": [None if pp.vpot is None else float(pp.vpot) for pp in path.phasepoints],
+                    "config": [(pp.config[0], pp.config[1]) for pp in path.phasepoints], "vel_rev": rev}
+
+        long_lived = _new_inproc_engine(name, case["sub"], L, case["k"])
+        done = []
+        for i, st in enumerate(case["steps"]):
+            if st.get("from") is not None:
+                j, fi = st["from"]
+                cfg = tuple(done[j]["config"][fi])
+                vel_rev0 = done[j]["vel_rev"]
+            else:
+                cfg = (start_file(st["d0"], st["v0"], i), 0)
+                vel_rev0 = False
+            a = prop(long_lived, os.path.join(work, "long"), cfg, vel_rev0, bool(st["rev"]), st["maxlen"])
+            b = prop(_new_inproc_engine(name, case["sub"], L, case["k"]), os.path.join(work, f"fresh{i}"), cfg, vel_rev0,
+                     bool(st["rev"]), st["maxlen"])
+            done.append(a)
+            rec = {"long": {q: a[q] for q in ("order", "ekin", "vpot")}, "fresh": {q: b[q] for q in ("order", "ekin", "vpot")}}
+            if st.get("from") is not None and bool(st["rev"]) != vel_rev0:
+                # time reversal from frame fi of path j: must retrace frames fi, fi-1, … of that path
+                j, fi = st["from"]
+                src = done[j]["order"][: fi + 1][::-1]
+                n = min(len(src), len(a["order"]))
+                rec["retrace_dev"] = max([abs(a["order"][q][0] - src[q][0]) for q in range(n)] +
+                                         [abs(a["order"][q][1] - src[q][1]) for q in range(n)] + [0.0])
+                rec["retrace_n"] = n
+            obs["steps"].append(rec)
+    except Exception:  # noqa: BLE001
+        obs["harness_error"] = traceback.format_exc()[-1500:]
+    finally:
+        shutil.rmtree(work, ignore_errors=True)
+    return obs
+
+
+def gen_seq_cases(ctx):
+    rng = ctx.rng
+    cases = []
+    for eng, k, d_lo, d_hi, vs in (("ase-seq", 0.5, 1.5, 2.75, (0.25, -0.25, 0.125)), ("turtle-seq", 1.0, 1.0625, 1.375, (0.5, -0.25, 0.25))):
+        for sub in (1, 2, 3):
+            for _ in range(2 if ctx.quick else 12):
+                steps = []
+                nsteps = rng.randint(3, 5)
+                for i in range(nsteps):
+                    if i > 0 and rng.random() < 0.5:
+                        j = rng.randrange(i)
+                        jl = steps[j]["maxlen"]
+                        fi = rng.randint(1, jl - 1)                  # a MIDDLE (or the last) frame of an earlier path
+                        # time reversal of path j from that frame, or continuation in the same direction
+                        rev = (not steps[j]["rev"]) if rng.random() < 0.7 else steps[j]["rev"]
+                        steps.append(dict(rev=bool(rev), maxlen=rng.randint(2, fi + 1) if rev != steps[j]["rev"] else rng.randint(2, 6),
+                                          **{"from": [j, fi]}))
+                    else:
+                        d0 = d_lo + (d_hi - d_lo) * rng.randrange(0, 9) / 8
+                        steps.append(dict(d0=d0, v0=rng.choice(vs), rev=bool(rng.getrandbits(1)), maxlen=rng.randint(3, 8)))
+                cases.append(dict(engine=eng, sub=sub, L=64.0, k=k, steps=steps, tag="sequence"))
+    return cases
+
+
+def check_seq_property(ctx, case, obs):
+    """the path is a function of the input phase point: same result on a long-lived engine object (whatever it did
+    before) as on a fresh one — positions/velocities (order components), ekin and vpot of every frame — and time
+    reversal from a middle frame retraces the source path"""
+    eng = "ase" if case["engine"].startswith("ase") else "turtle"
+    rep = {"case": case}
+    for i, st in enumerate(obs.get("steps", [])):
+        a, b = st["long"], st["fresh"]
+        if a != b:
+            what = [q for q in ("order", "ekin", "vpot") if a[q] != b[q]]
+            dev = 0.0
+            if len(a["order"]) == len(b["order"]):
+                dev = max([abs(x[0] - y[0]) for x, y in zip(a["order"], b["order"])] + [0.0])
+            ctx.fail(f"C12:{eng}:state-leaks-between-propagations",
+                     f"propagation #{i} of the sequence differs on a long-lived engine object from a fresh one in {what} "
+                     f"(max order deviation {dev:.3e}): long {a['order'][:3]}… fresh {b['order'][:3]}…",
+                     {**rep, "step": i, "long": a, "fresh": b})
+            return
+        if st.get("retrace_dev", 0.0) > 1e-6:      # velocity Verlet is reversible up to rounding (observed ≤ 3e-9; a stale force gives ~1e-3)
+            ctx.fail(f"C12:{eng}:backward-does-not-retrace",
+                     f"propagation #{i}: time reversal from a middle frame deviates {st['retrace_dev']:.3e} from the source path",
+                     {**rep, "step": i, "long": a})
+            return
 
 
 # ----------------------------------------------------------------------------- plug-in engine
@@ -740,12 +924,33 @@ def run_gmx(case):
     from infretis.classes.path import Path
     from infretis.classes.system import System
     ctl.install()
+    work = _newdir()
+    try:
+        if case.get("prelude"):
+            # an earlier propagation with the SAME engine object in the SAME exe_dir (its leftovers stay)
+            pre = _run_gmx_in(case["prelude"], work)
+            if "harness_error" in pre:
+                return pre
+        obs = _run_gmx_in(case, work)
+        if case.get("prelude"):
+            obs["prelude_obs"] = {k: pre.get(k) for k in ("raised", "success", "status", "path", "proc")}
+        return obs
+    finally:
+        shutil.rmtree(work, ignore_errors=True)
+
+
+def _run_gmx_in(case, work):
+    import importlib.util  # noqa: F401
+    from fake_md import ctl
+    from infretis.classes.engines import gromacs as mod
+    from infretis.classes.path import Path
+    from infretis.classes.system import System
     frames = case["frames"]
     sub, natoms, double = case.get("sub", 1), case.get("natoms", 2), bool(case.get("double", False))
-    work = _newdir()
     obs = {"raised": "ok"}
     try:
         eng = _gmx_engine(sub, natoms)
+        eng.mdrun = ctl.fake_cmd("fake_gmx.py") + (" launch" if case.get("launch") else "") + " mdrun -s {} -deffnm {} -c {}"
         blobs = [trr_bytes(natoms, double, k * sub, d, L, vx) for k, (d, L, vx) in enumerate(frames)]
         cuts = list(itertools.accumulate([0] + [len(b) for b in blobs]))
         files = {"trr": b"".join(blobs).hex(), "edr": ""}
@@ -819,8 +1024,6 @@ def run_gmx(case):
         obs["harness_error"] = str(e)
     except Exception:  # noqa: BLE001
         obs["harness_error"] = traceback.format_exc()[-1500:]
-    finally:
-        shutil.rmtree(work, ignore_errors=True)
     return obs
 
 
@@ -832,6 +1035,8 @@ def run_any(case):
         return run_ext(case)
     if kind in ("turtle", "ase"):
         return run_inproc(case)
+    if kind in ("turtle-seq", "ase-seq"):
+        return run_seq(case)
     return run_plugin(case)
 
 
@@ -1097,11 +1302,28 @@ def gen_ext_cases(ctx):
         cases.append(dict(engine="cp2k", frames=fr, sched=sched_from_times(pt[0], pt[1:], x, vt), code=rng.choice((0, 0, 5, -9, -11, -15)),
                           maxlen=rng.randint(1, n + 1), left=0.5, right=8.0, rev=rng.choice((0, 1)),
                           vel_rev0=rng.choice((False, True)), sub=rng.choice((1, 2, 3)), tag="cp2k-random"))
+    # E. two consecutive propagations with ONE engine object in ONE exe_dir: nothing of the first may leak into the
+    #    second (reader positions, leftover files, cached sizes): the second is checked like any other case
+    for eng in ("lammps", "cp2k"):
+        for j in range(12 if quick else 80):
+            def one(n):
+                fr = [(rng.choice((1.0, 2.0, 3.5, 7.75, 9.0)), 30.0 if eng == "cp2k" else rng.choice((16.0, 32.0)), float(rng.randint(-3, 3)))
+                      for _ in range(n)]
+                t = sorted(rng.randint(0, 2 * n + 4) for _ in range(n + 2))
+                return dict(engine=eng, frames=fr, sched=sched_from_times(t[0], t[1:-1], t[-1], t[1:-1]), code=rng.choice((0, 0, 3, -9)),
+                            maxlen=rng.randint(1, n + 1), left=0.5, right=8.0, rev=rng.choice((0, 1)),
+                            vel_rev0=rng.choice((False, True)), sub=1, tag="second-in-same-dir")
+            c2 = one(rng.randint(1, 4))
+            c2["prelude"] = one(rng.randint(1, 5))
+            cases.append(c2)
     for c in cases:
-        if c.get("start") is None:
-            c.pop("start", None)
-        if not c["frames"] and "start" not in c:
-            c["start"] = (1.0, 16.0, 1.0)
+        for cc in (c, c.get("prelude")):
+            if cc is None:
+                continue
+            if cc.get("start") is None:
+                cc.pop("start", None)
+            if not cc["frames"] and "start" not in cc:
+                cc["start"] = (1.0, 16.0, 1.0)
     return cases
 
 
@@ -1147,6 +1369,31 @@ def gen_gmx_cases(ctx):
                           code=rng.choice((0, 0, 0, 1, -9, -11, -15)), maxlen=rng.randint(1, n + 1), left=0.5, right=8.0,
                           rev=rng.choice((0, 1)), vel_rev0=rng.choice((False, True)), sub=rng.choice((1, 2, 3)),
                           natoms=natoms, double=double, tag="gmx-random"))
+    # launcher-style worker command (`wmdrun = "srun … gmx mdrun"`): the engine's child is a launcher, mdrun its child in
+    # the same process group — after propagate the WHOLE group must be gone
+    for j in range(16 if ctx.quick else 120):
+        n = rng.randint(1, 4)
+        fr = [(1.0 + 0.5 * i if i < n - 1 else rng.choice((9.0, 2.0)), rng.choice((16.0, 32.0)), float(rng.randint(-3, 3))) for i in range(n)]
+        t = sorted(rng.randint(0, 2 * n + 5) for _ in range(n + 2))
+        cases.append(dict(engine="gromacs", frames=fr, sched=sched_from_times(t[0], t[1:-1], t[-1]), code=rng.choice((0, 0, 0, 2, -9)),
+                          maxlen=rng.randint(max(1, n - 1), n + 2), left=0.5, right=8.0, rev=rng.choice((0, 1)), vel_rev0=False, sub=1,
+                          natoms=40, double=bool(j % 2), launch=True, tag="gmx-launcher"))
+    # the witness for the launcher case: the crossing frame is seen while mdrun is still running
+    cases.append(dict(engine="gromacs", frames=[(1.0, 16.0, 1.0), (9.0, 32.0, 2.0)], sched=[(1, 2, 0, 1)] * 12 + [(1, 2, 0, 0)], code=0,
+                      maxlen=5, left=0.5, right=8.0, rev=0, vel_rev0=False, sub=1, natoms=40, double=False, launch=True,
+                      tag="gmx-launcher"))
+    # two consecutive propagations with one engine object in one exe_dir
+    for j in range(10 if ctx.quick else 60):
+        def one(n):
+            fr = [(rng.choice((1.0, 2.0, 3.5, 7.75, 9.0)), rng.choice((16.0, 32.0)), float(rng.randint(-3, 3))) for _ in range(n)]
+            t = sorted(rng.randint(0, 2 * n + 4) for _ in range(n + 2))
+            return dict(engine="gromacs", frames=fr, sched=sched_from_times(t[0], t[1:-1], t[-1]), code=rng.choice((0, 0, 3, -9)),
+                        maxlen=rng.randint(1, n + 1), left=0.5, right=8.0, rev=rng.choice((0, 1)), vel_rev0=rng.choice((False, True)),
+                        sub=1, natoms=rng.choice((2, 40)), double=rng.choice((False, True)), tag="gmx-second-in-same-dir")
+        c2 = one(rng.randint(1, 5))
+        c2["prelude"] = one(rng.randint(1, 6))
+        c2["prelude"]["natoms"] = c2["natoms"]
+        cases.append(c2)
     for c in cases:
         if c.get("start") is None:
             c.pop("start", None)
@@ -1475,6 +1722,18 @@ def _run(ctx):
             ctx.hit(f"{eng}:retrace")
         if k % 37 == 0:
             ctx.sample({"engine": eng, "case": case, "path": obs.get("path"), "success": obs.get("success")})
+    # ================================================================= sequences of propagations on one engine object
+    scases = gen_seq_cases(ctx)
+    sobs = _map_cases(ctx, scases)
+    for k, (case, obs) in enumerate(zip(scases, sobs)):
+        if "harness_error" in obs:
+            _infra(case, obs)
+        ctx.count(len(obs["steps"]), engine=case["engine"])
+        ctx.distinct((case["engine"], case["sub"], json.dumps(case["steps"], sort_keys=True)))
+        check_seq_property(ctx, case, obs)
+        if k % 7 == 0:
+            ctx.sample({"engine": case["engine"], "sub": case["sub"], "steps": case["steps"],
+                        "first_path": obs["steps"][0]["long"]["order"][:4]})
     # ================================================================= plug-in engine and add_to_path
     pcases = gen_plugin_cases(ctx)
     pobs = [run_any(c) for c in pcases]
@@ -1553,6 +1812,10 @@ def _run(ctx):
         "the MD programs are stand-ins that write what the schedule says; frame 0 of their output is the start point",
         "output/exit events of the external program happen at the engine's sleep()/poll() calls (every observable "
         "interleaving of one poll/one read is reachable this way); torn frames are C13's subject and not generated here",
+        "'the external program' is the whole process group/session the engine creates (launcher + MD executable): checked "
+        "with a launcher-mode fake gmx (bounded wait of 2 s for the group to vanish); LAMMPS/CP2K fakes are single processes",
+        "in-process engines: the path is a function of the input phase point — checked by running sequences of propagations "
+        "on one engine object against a fresh engine object per call (bitwise equal orders, ekin, vpot)",
         "CP2K: the box is constant (the engine reads no box from CP2K output; documented NVT-only limitation)",
         "GROMACS: tied through fake gmx (grompp/energy stubs, mdrun streaming TRR, both precisions) at whole-frame "
         "granularity; torn TRR frames are C13's subject; the .edr content is a stub (energies are not checked)",
@@ -1583,6 +1846,11 @@ def replay(ctx, obj):
             check_ext_property(ctx, case, obs)
         elif case["engine"] in ("turtle", "ase"):
             check_inproc_property(ctx, case, obs)
+        elif case["engine"] in ("turtle-seq", "ase-seq"):
+            if "harness_error" in obs:
+                print(obs["harness_error"])
+                return 2
+            check_seq_property(ctx, case, obs)
         else:
             check_path_rules(ctx, case["engine"], case, obs, rep)
         bad = ctx.fails[n0:]
